@@ -41,7 +41,8 @@ CLAIMED = {
                 "plus chains of 5 leaves on one species x 3 families and chains of 4 leaves on a species cherry x 3 families; "
                 "thorough adds 4x<=3x2, 4x<=2x4 families, 5x<=2x2. Oracle searches EVERY admissible labelling (brute force <=4 leaves, "
                 "plus every 4-leaf object on 3 species leaves with one family; Bellman at 5), so the solver's restriction to the LCA/INHERIT labellings is itself decided on these slices. Session slice: one "
-                "input object per shape pair (<=3x<=3 leaves, 2 families) updated in place.",
+                "input object per shape pair (<=3x<=3 leaves, 2 families) updated in place; retopology session: one root node object given every "
+                "object shape of 2..4 leaves in turn, every input of each shape solved on it.",
         "design_ref": "6 (C03), 4.2-4.4, 5",
         "note": "Trusted: refmodel/unordered.py (brute force <-> Bellman cross-validated). Coherent cost region only; "
                 "F-COHERENCE witnesses replayed from known_findings.json.",
@@ -53,7 +54,8 @@ CLAIMED = {
                 "(incl. 5-leaf chains x 3 families for the unordered solvers) and on multifurcating inputs (Schroeder shapes <=3x<=3 leaves; thorough also 4-leaf objects with one 3-ary polytomy) for the "
                 "extended solvers, with a cost menu that includes sloss=0, all-zero and incoherent vectors; the structural predicate is evaluated "
                 "on the trees each solution refers to; on refinements the cost must also be finite under the REQUESTED unit costs (hgt = inf included); "
-                "a polytomy session slice solves one multifurcating input object again after in-place updates of its leaf data and costs.",
+                "a polytomy session slice solves one multifurcating input object again after in-place updates of its leaf data and costs; "
+                "a retopology session gives one root node object every binary shape of 2..4 leaves in turn.",
         "design_ref": "6 (C04)",
         "note": "Trusted: the validity predicates in refmodel/{dtl,ordered,unordered}.py. No optimality is checked here (C01-C03, C05, C08).",
         "technique": TECH_E2,
